@@ -893,6 +893,20 @@ func removeJobFromList(jobs []*PipelineJob, jobToRemove *PipelineJob) []*Pipelin
 	return jobs
 }
 
+// removeJobFromWaitList returns a new wait list without the given job, the order of the other jobs is preserved
+func removeJobFromWaitList(waitList []*PipelineJob, jobToRemove *PipelineJob) []*PipelineJob {
+	if len(waitList) == 0 {
+		return waitList
+	}
+	result := make([]*PipelineJob, 0, len(waitList))
+	for _, job := range waitList {
+		if job != jobToRemove {
+			result = append(result, job)
+		}
+	}
+	return result
+}
+
 // determineIfJobShouldBeRemoved implements the retention period handling.
 func (r *PipelineRunner) determineIfJobShouldBeRemoved(index int, job *PipelineJob) (bool, string) {
 	pipelineDef, pipelineDefExists := r.defs.Pipelines[job.Pipeline]
@@ -954,6 +968,16 @@ func (r *PipelineRunner) cancelJobInternal(id uuid.UUID) error {
 
 	if job.Start == nil {
 		job.markAsCanceled()
+
+		// A canceled job must not wait any longer: stop its start timer and take it off the wait list (keeping
+		// the order of the other jobs), so it neither occupies a queue slot nor blocks the jobs queued behind it
+		if job.startTimer != nil {
+			job.startTimer.Stop()
+			job.startTimer = nil
+		}
+		r.waitListByPipeline[job.Pipeline] = removeJobFromWaitList(r.waitListByPipeline[job.Pipeline], job)
+		// The next job on the wait list could be startable now
+		r.startJobsOnWaitList(job.Pipeline)
 
 		log.
 			WithField("component", "runner").
